@@ -807,3 +807,70 @@ def datum_id_rule(rep, F):
                 rep.violation("DATUM-id", "PlutusData|ord-not-on-bytes", "PlutusData's hand-written Ord reads original_bytes but never compares the bytes the two datums are written with (to_bytes): Some(canonical bytes) and None would still be told apart", {})
             if "original_bytes" not in rd or "datum" not in rd:
                 rep.violation("DATUM-id", "PlutusData|ord-basis|%s" % ",".join(sorted(rd)), "PlutusData's hand-written Ord compares %s only: two datums with equal value but different preserved bytes (different hashes, both required by their inputs) collapse to one in every witness-set de-duplication" % sorted(rd), {})
+
+
+def hash_eq_rule(rep, F):
+    """Hash/Eq contract for everything that is (part of) an element of a hash-based de-duplicating set"""
+    rep.rule("HASH-EQ", "every type that is, or is contained in, an element of a hash-based de-duplicating set (the `dedup` HashSet of Certificates, Credentials, Ed25519KeyHashes, VotingProposals, Vkeywitnesses, BootstrapWitnesses) hashes no field that its equality ignores - no encoding-detail allowance here: equal elements must land in the same bucket, or the set holds (and writes) the same element twice while the decoder, which rebuilds the elements uniformly, collapses them")
+    names = {a.rsplit("::", 1)[-1]: a for a in F.adts}
+    roots = []
+    for adt, a in F.adts.items():
+        for v in a["variants"]:
+            for f in v["fields"]:
+                if f["name"] == "dedup":
+                    for x in re.findall(r"Hash(?:Set|Map)<(?:std::rc::Rc<)?([A-Za-z0-9_:]+)", f["ty"]):
+                        roots.append(x if x in F.adts else names.get(x.rsplit("::", 1)[-1]))
+    roots = [r for r in roots if r]
+    if len(roots) < 5:
+        rep.lost("hash-based de-duplicating sets not found (%d)" % len(roots))
+        return
+
+    def refs(adt):
+        out = set()
+        for v in F.adts[adt]["variants"]:
+            for f in v["fields"]:
+                for tok in re.findall(r"[A-Za-z_][A-Za-z0-9_:]*", f["ty"]):
+                    if tok in F.adts:
+                        out.add(tok)
+                    elif "::" not in tok and tok in names:
+                        out.add(names[tok])
+        return out
+    clo, work = set(), list(roots)
+    while work:
+        x = work.pop()
+        if x in clo:
+            continue
+        clo.add(x)
+        work.extend(refs(x))
+
+    def impl_of(adt, prefix):
+        for im in F.impls:
+            if (im.get("trait") or "").startswith(prefix) and (im.get("self_adt") or im["self_ty"]) == adt and "/tests/" not in im.get("file", ""):
+                return im
+        return None
+    n = 0
+    for adt in sorted(clo):
+        a = F.adts[adt]
+        if a["kind"] != "struct":
+            continue
+        eq, hs = impl_of(adt, "std::cmp::PartialEq"), impl_of(adt, "std::hash::Hash")
+        if not eq or not hs or (eq.get("derive") and hs.get("derive")):
+            continue
+        fs = {f["name"] for f in a["variants"][0]["fields"]}
+
+        def basis(im, mname):
+            if im.get("derive"):
+                return set(fs)
+            mid = [m["id"] for m in im["methods"] if m["name"] == mname]
+            if not mid or mid[0] not in F.fns:
+                return None
+            return {f for (x, f) in fields_read(F, mid[0], depth=2) if x == adt} & fs
+        e, h = basis(eq, "eq"), basis(hs, "hash")
+        if e is None or h is None:
+            continue
+        n += 1
+        rep.inst("HASH-EQ")
+        if h - e:
+            short = adt.rsplit("::", 1)[-1]
+            rep.violation("HASH-EQ", "%s|%s" % (short, ",".join(sorted(h - e))), "%s hashes %s, which its equality ignores: two equal %s values (e.g. one decoded from an untagged array, one built through the API) land in different buckets, so a set-typed collection that contains them - directly or inside an element such as a pool registration's owners - keeps both, writes the element twice, and does not survive its own round trip" % (short, sorted(h - e), short), {})
+    rep.floor("hand-written Hash / Eq pairs inside de-duplicated set elements", 3, n)
